@@ -195,7 +195,7 @@ macro_rules! c16_sched {
                 std::time::Instant::now => crate::common::stubs::instant_now,
                 std::time::Instant::elapsed => crate::common::stubs::instant_elapsed
             ],
-            targets: "fsa::version_sync::VersionManager::{acquire_writer_token, acquire_reader_token, release_reader_token, release_writer_token, try_advance_min_version}, ReaderToken/WriterToken::drop, LazyFreeItem::can_free; schedule points 401,402,411,421,422,423",
+            targets: "fsa::version_sync::VersionManager::{acquire_writer_token, acquire_reader_token, release_reader_token, release_writer_token, try_advance_min_version}, ReaderToken/WriterToken::drop, LazyFreeItem::can_free; schedule points 401,402,403,410,411,421,422,423,424",
             bounds: "one manager at the instance's ConcurrencyLevel; thread A: one operation (instance arg: 0 acquire writer, 1 acquire reader, 2 release a reader); the first time A reaches ONE schedule point (instance arg before last: its id) the solver runs 0..K complete enabled operations of thread B from {acquire writer, acquire reader, drop a reader, drop a writer} (K = last arg, nesting depth 1); B holds at most 2+2 tokens; sequentially consistent atomics",
             oracle: "at quiescence: live writer tokens <= 1 (OneWriteMultiRead); active_readers/active_writers == live token counts; min_version <= version of every live token and LazyFreeItem{age = that version}.can_free(min_version) is false; a refused writer request leaves the counters unchanged; all counters 0 after every token is dropped",
             body: { version_sched(ConcurrencyLevel::$level, $aop, $point, $k) }
@@ -206,9 +206,73 @@ c16_sched!(c16_writer_at401_k2, quick, 4, OneWriteMultiRead, 0, 401, 2);
 c16_sched!(c16_writer_at402_k2, quick, 4, OneWriteMultiRead, 0, 402, 2);
 c16_sched!(c16_reader_at411_k2, quick, 4, OneWriteMultiRead, 1, 411, 2);
 c16_sched!(c16_release_at421_k2, thorough, 4, OneWriteMultiRead, 2, 421, 2);
+c16_sched!(c16_release_at424_k2, quick, 4, OneWriteMultiRead, 2, 424, 2);
+c16_sched!(c16_writer_at403_k2, quick, 4, OneWriteMultiRead, 0, 403, 2);
+c16_sched!(c16_reader_at410_k2, quick, 4, OneWriteMultiRead, 1, 410, 2);
 c16_sched!(c16_release_at422_k2, quick, 4, OneWriteMultiRead, 2, 422, 2);
 c16_sched!(c16_release_at423_k2, quick, 4, OneWriteMultiRead, 2, 423, 2);
 c16_sched!(c16_writer_mwmr_at402_k2, thorough, 4, MultiWriteMultiRead, 0, 402, 2);
 c16_sched!(c16_release_mwmr_at422_k3, thorough, 5, MultiWriteMultiRead, 2, 422, 3);
 c16_sched!(c16_writer_at401_k3, thorough, 5, OneWriteMultiRead, 0, 401, 3);
 c16_sched!(c16_reader_at411_k3, thorough, 5, OneWriteMultiRead, 1, 411, 3);
+
+
+// ---------------------------------------------------------------- LazyFreeList
+/// Items retired at symbolic ages are queued in a solver-chosen order; process_safe_items(min)
+/// may only hand items with age < min to the free callback, and must keep every other item.
+fn lazy_free<const N: usize>() {
+    let mut list = LazyFreeList::with_bulk_threshold(8);
+    let ages: [u64; N] = vany();
+    let mut i = 0;
+    while i < N {
+        assume(ages[i] < 16);
+        list.push(LazyFreeItem::new(ages[i], i as u32, 8));
+        i += 1;
+    }
+    let min: u64 = vany();
+    assume(min < 16);
+    let mut freed = [false; N];
+    let mut bad = false;
+    let n = list.process_safe_items(min, |it| {
+        let k = it.memory_offset as usize;
+        if k < N {
+            if freed[k] || it.age != ages[k] { bad = true; }
+            freed[k] = true;
+        } else {
+            bad = true;
+        }
+        if !(it.age < min) { bad = true; }
+    });
+    assert!(!bad, "an item with age >= min_version was handed to the free callback (or an item twice)");
+    let mut cnt = 0;
+    i = 0;
+    while i < N {
+        if freed[i] { cnt += 1; }
+        i += 1;
+    }
+    assert!(n == cnt && list.len() == N - cnt, "processed count / remaining length do not add up");
+    zcover!(cnt > 0 && cnt < N, "some freed, some kept");
+    zcover!(N >= 2 && ages[0] > ages[N - 1], "opt: queue not sorted by age");
+    forget(list);
+}
+macro_rules! c16_lazy_free {
+    ($name:ident, $tier:ident, $unwind:literal, $n:literal) => {
+        zv_harness! {
+            name: $name,
+            prop: "C16",
+            tier: $tier,
+            unwind: $unwind,
+            stubs: [
+                alloc::fmt::format => crate::common::stubs::fmt_format,
+                std::time::Instant::now => crate::common::stubs::instant_now,
+                std::time::Instant::elapsed => crate::common::stubs::instant_elapsed
+            ],
+            targets: "fsa::version_sync::LazyFreeList::{with_bulk_threshold, push, process_safe_items, len}, LazyFreeItem::can_free",
+            bounds: "N items (instance arg) with symbolic ages < 16 pushed in any order, one process_safe_items call with symbolic min_version < 16, bulk threshold 8",
+            oracle: "every item handed to the free callback has age < min_version and is handed over once; returned count == items freed; the others stay queued",
+            body: { lazy_free::<$n>() }
+        }
+    };
+}
+c16_lazy_free!(c16_lazy_free_n3, quick, 6, 3);
+c16_lazy_free!(c16_lazy_free_n4, thorough, 7, 4);
